@@ -3,6 +3,7 @@
 import json, sys
 pid = sys.argv[1]
 variant = sys.argv[2] if len(sys.argv) > 2 else "a"
+focus = sys.argv[3] if len(sys.argv) > 3 else ""
 for l in open('/verif/properties.jsonl'):
     p = json.loads(l)
     if p['id'] == pid:
@@ -21,7 +22,7 @@ QUANTIFIED OVER: {p['quantifier']['text']}
 Your task: make ONE small, realistic change to the n2 sources under {wt}/src (the kind of mistake a maintainer could plausibly make in a refactoring, an optimisation or a bug fix — not an obviously malicious edit, no dead code, no comments announcing it) such that:
  1. the project still compiles (`cargo build --offline`) and the whole existing test suite still passes (`cargo test --offline` in {wt}; all 71 tests green);
  2. the property above is now violated;
- 3. the violation needs something SPECIFIC to manifest — a particular interleaving or completion order, a failure or crash at a particular point, a multi-step sequence of invocations, an unusual input, or two cooperating code sites that each look fine alone — i.e. ordinary simple use would NOT expose it at once.{' Prefer a change in a DIFFERENT part of the code / a different mechanism than the most obvious one.' if variant != 'a' else ''}
+ 3. the violation needs something SPECIFIC to manifest — a particular interleaving or completion order, a failure or crash at a particular point, a multi-step sequence of invocations, an unusual input, or two cooperating code sites that each look fine alone — i.e. ordinary simple use would NOT expose it at once.{' Prefer a change in a DIFFERENT part of the code / a different mechanism than the most obvious one.' if variant != 'a' else ''}{(' To spread the experiments over the code base, your change must be in ' + focus + ' (any function there that the property depends on, directly or indirectly); if after reading you are sure no such change exists in those files, say so and stop rather than changing another file.') if focus else ''}
 
 Then write a demonstration: a shell script or small Rust integration test (put it in {wt}/_out/demo.sh or {wt}/_out/demo_test.rs with instructions) that FAILS (exit code != 0) on the changed tree and PASSES on the unchanged tree. The demo may build n2 with cargo (offline) and drive the binary on a temp directory with a small build.ninja; it must be deterministic (use sleeps/files for ordering if needed) and finish in under 2 minutes.
 
